@@ -6,16 +6,15 @@ from . import core, purefn
 
 _KNOWN = re.compile(r'^<<\s*"KNOWN",\s*(\d+),\s*"([^"]+)"')
 _LINE = re.compile(r'^<<\s*"MISMATCH",\s*(\d+),')
-PROPOSED = os.path.join(core.ROOT, "work", "proposed_fixes", "known_C13_C17_C18.json")
 
 
 def open_signatures(pid):
-    """Open findings of this property: known_findings.json, plus (until the main session has registered them)
-    the proposed entries of work/proposed_fixes/known_C13_C17_C18.json."""
+    """Open findings of this property in known_findings.json (the only authority): deviations the trace spec may
+    match instead of the intended behaviour.  `fixed' entries are documentation; their deviation is NOT allowed."""
+    pid = pid.replace("-replay", "")
     sigs = {}
-    for p in (os.path.join(core.ROOT, "known_findings.json"), PROPOSED):
-        if not os.path.exists(p):
-            continue
+    p = os.path.join(core.ROOT, "known_findings.json")
+    if os.path.exists(p):
         for k in json.load(open(p)).get("findings", []):
             if k.get("status") == "open" and k.get("signature") and (k.get("property") == pid or pid in k.get("also", [])):
                 sigs.setdefault(k["signature"], k)
